@@ -54,7 +54,7 @@ def build_cases(ctx, stream: str, n: int) -> list[dict]:
                         default_response=False, self_ref=False)
         else:
             o = gs.Opts(mainstream=True, always_opid=True, max_ops=4, enum_params=False, formats=("date-time", "date", "byte"), text_binary=True,
-                        streaming=True, unions=True, ndjson=True)
+                        streaming=True, unions=True, ndjson=True, multi_media_resp=True)
         doc = gs.gen_spec(r, o) if o is not None else WITNESS_DOC
         calls = []
         for path, m, op, pl in opsrig.ops_of(doc):
@@ -64,6 +64,7 @@ def build_cases(ctx, stream: str, n: int) -> list[dict]:
             for c in codes2:
                 for rep in range(2):
                     rp = opsrig.reply_for(r, doc, c, op["responses"][c])
+                    rp["code_key"] = c
                     if o is None and op["operationId"] == "getU":   # F24 witness: a V2 payload, declared after V1
                         import base64 as _b64
                         inst = {"item": {"a": "x", "b": 7}}
@@ -90,12 +91,12 @@ def primary_code(responses: dict) -> str | None:
     for c in ("200", "201", "202", "204"):
         if c in responses:
             return c
-    for c in responses:
-        if str(c).isdigit() and str(c).startswith("2"):
+    for c in sorted(map(str, responses)):          # lowest other 2xx key (F57 repaired: independent of the key order)
+        if c.startswith("2"):
             return c
     if "default" in responses:
         return "default"
-    return next(iter(responses), None)
+    return min(map(str, responses), default=None)
 
 
 def contains_format(doc, sch, fmts, depth=0) -> bool:
@@ -113,6 +114,11 @@ def contains_format(doc, sch, fmts, depth=0) -> bool:
     return any(contains_format(doc, p, fmts, depth + 1) for p in (s.get("properties") or {}).values())
 
 
+def _handler_media(content: dict):
+    """response_handler_generator._get_response_schema: application/json, else the first media type."""
+    return "application/json" if "application/json" in content else next(iter(content), None)
+
+
 def resp_features(doc, sch, rp, op) -> dict:
     rs = gs.resolve(doc, sch) if sch else {}
     return {
@@ -124,6 +130,7 @@ def resp_features(doc, sch, rp, op) -> dict:
         "stream": rp["expect"]["kind"] in ("stream_json", "bytes"),
         "top_enum": "enum" in rs,
         "map_body": rs.get("type") == "object" and "properties" not in rs and "allOf" not in rs,
+        "secondary_other_media": len((op["responses"].get(rp.get("code_key", ""), {}) or {}).get("content") or {}) > 1 and rp.get("media_type") != _handler_media((op["responses"].get(rp.get("code_key", ""), {}) or {}).get("content") or {}),
         "doc_self_ref": any(('"$ref": "#/components/schemas/%s"' % n) in json.dumps(sc) for n, sc in doc["components"]["schemas"].items()),
     }
 
@@ -153,6 +160,8 @@ def attribute(call: dict, mism: list[str]) -> str | None:
         return "F41"
     if "ForwardRef(" in text or (f.get("doc_self_ref") and ("Cannot structure" in text or "Could not structure" in text)):
         return "F42"   # a model that references itself through an array cannot be decoded, nor can any model containing it
+    if not call["primary"] and f.get("secondary_other_media"):
+        return "F59"   # a secondary 2xx arm is generated from ONE media type (application/json, else the first) and never dispatches
     if call.get("media_type") == "application/x-ndjson" and "streamed items []" in text:
         return "F43"
     if f["has_union_inside"] or f["union"]:
